@@ -93,7 +93,7 @@ class _Subst(ast.NodeTransformer):
 
     def visit_Name(self, n):
         if n.id in self.m and isinstance(n.ctx, ast.Load):
-            return copy.deepcopy(self.m[n.id])
+            return ast.parse(ast.unparse(self.m[n.id]), mode="eval").body
         return n
 
 
